@@ -23,6 +23,7 @@ void h_pnumval(void) {
   for (unsigned i = 0; i < 63; i++) if (i < kept) VASSERT(g_seen[i] == in[i], "the numeral is handed to parseNumber verbatim (up to 63 characters)");
   VASSERT(g_seen[kept] == 0, "NUL-terminated right after the copied characters");
   VASSERT(o.code == INVALID, "the stub says invalid: reported as InvalidInput");
-  VASSERT(o.consumed == kept + 1 && o.latched && o.latch_char == in[kept], "one look-ahead byte, left latched (C16)");
+  VASSERT(o.consumed == kept + 1 && o.latched && o.latch_char == in[kept], "one look-ahead byte, left latched (C16); a numeral longer than 63 characters is cut there");
+  for (unsigned i = 0; i < 64; i++) VASSERT(bufcopy[i] == g_seen[i], "the buffer is the one handed to parseNumber; nothing beyond its 64 bytes is touched (CBMC bounds check)");
   VWITNESS("any");
 }
